@@ -14,14 +14,49 @@ DESIGN_REF = '3.7'
 PROFILES = [('c07-solo', 5000), ('c07', 10000), ('c07-shutdown', 6000)]
 
 
+# ---- fault enumeration: shut the loop down at every grid instant of fixed base programs
+def _bp(ops, func, T=0.125):
+    return {'world': 'buffer', 'profile': 'c07-sweep', 'T': T, 'ops': ops, 'foreign': [], 'func': func, 'form': 'direct'}
+
+
+_OK = [{'dur': 0.25, 'fail': False}] * 6
+_FAIL1 = [{'dur': 0.0625, 'fail': True}] + [{'dur': 0.25, 'fail': False}] * 5
+SWEEP_BASES = [
+    _bp([{'op': 'call', 'elems': [0], 'at': 0.0}], _OK),
+    _bp([{'op': 'call', 'elems': [0], 'at': 0.0}, {'op': 'call', 'elems': [1], 'at': 0.0625}, {'op': 'wait', 'cancel': True, 'at': 0.09375}], _OK),
+    _bp([{'op': 'amap', 'elems': [0, 1], 'delays': [0.0, 0.25, 0.0], 'fail_at': None, 'at': 0.0}], _OK),
+    _bp([{'op': 'await', 'elems': [0], 'delay': 0.1875, 'fail': False, 'at': 0.0}, {'op': 'wait', 'cancel': False, 'at': 0.03125}], _OK),
+    _bp([{'op': 'call', 'elems': [0], 'at': 0.0}], _FAIL1),
+    _bp([{'op': 'map_iter', 'elems': [0, 1], 'delays': [0.0, 0.125, 0.0], 'fail_at': None, 'at': 0.0}], _OK),
+    _bp([{'op': 'call', 'elems': [0], 'at': 0.0}, {'op': 'call', 'elems': [1], 'at': 0.3125}], _OK, T=0.25),
+]
+SWEEP_Q = 1.0 / 128
+SWEEP_N = 129           # instants 0, 1/128, ..., 1.0
+
+
 def batches(tier):
     k = 1 if tier == 'quick' else 12
-    return [{'name': n, 'n': c * k, 'profile': n} for n, c in PROFILES]
+    out = [{'name': n, 'n': c * k, 'profile': n} for n, c in PROFILES]
+    out.append({'name': 'shutdown-sweep', 'n': len(SWEEP_BASES) * SWEEP_N, 'profile': 'sweep', 'chunk': 150})
+    return out
 
 
 def make_case(batch, seed):
+    if batch['profile'] == 'sweep':
+        import json
+        bi, ti = divmod(batch['index'], SWEEP_N)
+        prog = json.loads(json.dumps(SWEEP_BASES[bi]))
+        prog['shutdown_at'] = ti * SWEEP_Q
+        return {'prog': prog, 'sched': {'seed': seed, 'strategy': ['sticky', 0.1]}}
     return _buffer.make_case(batch['profile'], seed, batch.get('index'))
 
 
 def run_case(case):
     return bw.execute(case['prog'], case.get('sched') or {}, props=('C07',))
+
+
+def extra_evidence(agg):
+    return {'fault_enumeration': f'shutdown-sweep: {len(SWEEP_BASES)} fixed base programs x {SWEEP_N} shutdown instants (every 1/128 s of '
+                                 'virtual time in [0, 1]); the state the buffer was in at each shutdown is counted under '
+                                 'faults_fired_by_kind (shutdown.in_state.*)',
+            'exhaustive_dimension': 'shutdown instant on the 1/128 s grid for each fixed base program'}
